@@ -258,6 +258,25 @@ Corollary conc_stats_exact : forall c st own, cfg_ok c -> conc_reach c st own ->
   s_reserved (statistics c st) = fold_right (fun b a => b_area b * pool_gran c (b_pool b) + a) 0 (blocks st).
 Proof. intros c st own Hc H. exact (stats_exact c st Hc (conc_reach_reach c st own Hc H)). Qed.
 
+(* what a thread gets from a successful alloc in the middle of any concurrent history: at least the requested size, aligned,
+   live in the new state, a new block only if no existing block of the pool had room - and (alloc_fresh) a span nobody owns *)
+Corollary conc_alloc_result : forall c st own size st' id off len, cfg_ok c -> conc_reach c st own ->
+  0 <= size -> size + c_gran c <= two64 -> alloc c st size = (st', RAlloc Ok id off len) ->
+  (size <= len < size + c_gran c /\ len mod c_gran c = 0 /\
+   exists b, In b (blocks st') /\ b_id b = id /\ b_pool b = size_to_pool c len /\
+             off mod pool_gran c (b_pool b) = 0 /\ len mod pool_gran c (b_pool b) = 0 /\
+             In (off / pool_gran c (b_pool b), len / pool_gran c (b_pool b)) (b_live b) /\
+             (nextid st' <> nextid st ->
+              forall b0, In b0 (blocks st) -> b_pool b0 = b_pool b -> no_room b0 (len / pool_gran c (b_pool b)))) /\
+  (forall j k, In (j, k) own -> k <> (id, off / pool_gran c (size_to_pool c len))).
+Proof.
+  intros c st own size st' id off len Hc H Hs0 Hs1 HA.
+  destruct (conc_reach_sound c st own Hc H) as [R [KL _]].
+  split; [exact (alloc_result c st size st' id off len Hc R Hs0 Hs1 HA)|].
+  intros j k Hin ->. destruct (KL j _ Hin) as [n Hn]. cbn [fst snd] in Hn.
+  refine (alloc_fresh c st size id off len Hc R Hs0 Hs1 _ n Hn). rewrite HA. reflexivity.
+Qed.
+
 (* the hypotheses are satisfiable: thread 0 allocates, thread 1 allocates, thread 0 releases its span *)
 Example conc_reach_example : exists st own, conc_reach JitWitness.cfg_f st own /\ map fst own = [1%nat].
 Proof.
